@@ -47,6 +47,8 @@ HIST_FIX = [0, 1, 2, 25, 26, 50, 51, 52, 1325, 1326, 1327, 84863, 84864, 84865, 
 HIST_FNS = HIST_FIX + [(i * 283 + 17) % (64 * SUPER) for i in range(300)]      # the driver's list (`hist`)
 HIST_FNS_PY = HIST_FIX + [(i * 283 + 17) % (64 * SUPER) for i in range(0, 300, 3)]
 HIST_BASES = (512, 700)
+FLAVOURS = ("512+p", "700+p", "ARFCN_PCS|(512+p)", "ARFCN_UPLINK|(512+p)", "ARFCN_PCS|ARFCN_UPLINK|(512+p)",
+            "0xffff,0x8000,0x7fff,0x4000,0xc000,0x0000,0x8001,0xfffe,0xf100+p")     # MA contents in drv_c07.c ma_val()
 _exe = None
 
 
@@ -413,9 +415,11 @@ def _take_fw(ctx, what, rc, out, err, tot, seen):
         if line.startswith("V "):
             f = dict(p.split("=") for p in line.split()[1:])
             hsn, maio, n, fn = int(f["hsn"]), int(f["maio"]), int(f["n"]), int(f["fn"])
-            ctx.violation(_fwkey(hsn, n), {"impl": "firmware", "hsn": hsn, "maio": maio, "n": n, "fn": fn},
-                          "rfch_get_params(hsn=%d maio=%d N=%d fn=%d) = channel %s (MA index %s); TS 45.002 6.2.3 gives MAI=%s -> channel %d (M'>=N branch: %s)"
-                          % (hsn, maio, n, fn, f["fw"], f["fwidx"], f["spec"], ma_val(int(f["spec"])), f["wrapped"]))
+            fl = int(f.get("flavour", 0))
+            ctx.violation(_fwkey(hsn, n), {"impl": "firmware", "hsn": hsn, "maio": maio, "n": n, "fn": fn, "flavour": fl},
+                          "rfch_get_params(hsn=%d maio=%d N=%d fn=%d, MA contents %s) = channel 0x%04x (MA index %s); "
+                          "TS 45.002 6.2.3 gives MAI=%s -> channel 0x%04x (M'>=N branch: %s)"
+                          % (hsn, maio, n, fn, FLAVOURS[fl], int(f["fw"]), f["fwidx"], f["spec"], int(f["want"]), f["wrapped"]))
         elif line.startswith("{"):
             js = json.loads(line)
     if js is None:
@@ -425,18 +429,24 @@ def _take_fw(ctx, what, rc, out, err, tot, seen):
             # narrow the death down to one input: replay the last configuration FN by FN
             f = dict(p.split("=") for p in marks[-1].split()[1:])
             hsn, n, maio = int(f["hsn"]), int(f["n"]), int(f["maio"])
-            vec = "".join("%d %d %d %d\n" % (hsn, maio, n, fn) for fn in FULL_FNS)
+            fl = int(f.get("flavour", 0))
+            vec = "".join("%d %d %d %d %d\n" % (hsn, maio, n, fn, fl) for fn in FULL_FNS)
             rc2, out2, _ = cbuild.run(_exe, ["vec"], stdin=vec.encode())
             last = [l for l in out2.decode().splitlines() if l.startswith("case ")]
             if rc2 not in (0, 1) and last:
                 g = dict(p.split("=") for p in last[-1].split()[1:])
-                case = {"impl": "firmware", "hsn": hsn, "maio": maio, "n": n, "fn": int(g["fn"])}
+                case = {"impl": "firmware", "hsn": hsn, "maio": maio, "n": n, "fn": int(g["fn"]), "flavour": fl}
                 where = " at hsn=%d maio=%d N=%d fn=%d" % (hsn, maio, n, case["fn"])
         ctx.violation("C07:firmware:crash", case,
                       "driver died (rc=%d) in `%s`%s: %s" % (rc, " ".join(map(str, what)), where, _san(err)))
         return
     for k in ("evaluations", "nontrivial", "direct", "wrapped", "cyclic"):
         tot[k] = tot.get(k, 0) + js[k]
+    tot["flavours"] = [a + b for a, b in zip(tot.get("flavours", [0] * len(FLAVOURS)), js["flavours"])]
+    sf = tot.setdefault("seen_by_flavour", [set() for _ in FLAVOURS])
+    for i, hx in enumerate(js["seen_by_flavour"]):
+        v = int(hx, 16)
+        sf[i // 64].update((i % 64 + 1, b) for b in range(64) if v >> b & 1)
     ctx.n_violations += max(0, js["violations"] - 20)
     for i, hx in enumerate(js["seen"]):
         v = int(hx, 16)
@@ -455,10 +465,10 @@ def _take_hist(ctx, what, rc, out, err, tot):
                                                else "ARFCN of the serving cell, no dedicated channel")
             ctx.violation("C07:firmware:history:%s" % cls, {"impl": "firmware-history", "idx": int(f["idx"])},
                           "with FN=%s fixed and the channel description changing between calls (%s), rfch_get_params with "
-                          "hsn=%d maio=%s N=%d MA base %s returns channel %s (MA index %s); %s - the result depends on the call history"
+                          "hsn=%d maio=%s N=%d MA contents %s returns channel %s (MA index %s); %s - the result depends on the call history"
                           % (f["fn"], {"hop": "next hopping configuration", "again": "hopping again after non-hopping / idle",
                                        "nonhop": "non-hopping channel", "none": "no dedicated channel"}[kind],
-                             hsn, f["maio"], n, f["base"], f["fw"], f["fwidx"], exp))
+                             hsn, f["maio"], n, FLAVOURS[int(f["flavour"])], f["fw"], f["fwidx"], exp))
         elif line.startswith("{"):
             js = json.loads(line)
     if js is None:
@@ -469,6 +479,7 @@ def _take_hist(ctx, what, rc, out, err, tot):
         return
     for k in ("hist_fns", "hist_hopping", "hist_hopping_repeat", "hist_nonhopping", "hist_serving_cell"):
         tot[k] = tot.get(k, 0) + js[k]
+    tot["hist_flavours"] = [a + b for a, b in zip(tot.get("hist_flavours", [0] * len(FLAVOURS)), js["hist_flavours"])]
     ctx.n_violations += max(0, js["violations"] - 20)
 
 
@@ -502,6 +513,8 @@ def run(ctx):
         c["firmware_wrap_branch"] = tot.get("wrapped", 0)
         c["firmware_cyclic"] = tot.get("cyclic", 0)
         c["firmware_distinct_n_mai"] = len(fwseen)
+        c["firmware_calls_by_ma_contents"] = dict(zip(FLAVOURS, tot.get("flavours", [])))
+        c["firmware_distinct_n_mai_by_ma_contents"] = dict(zip(FLAVOURS, [len(x) for x in tot.get("seen_by_flavour", [])]))
         fw_expected = 64 * sum(len(maio_set(n)) for n in range(1, 65)) * len(FULL_FNS) \
             + sum(64 * len(hsn0_fns(n)) for n in range(1, 65))
 
@@ -537,6 +550,7 @@ def run(ctx):
         ncfg = 64 * sum(len(maio_set(n)) for n in range(1, 65)) * len(HIST_BASES)
         c["history_configurations_per_fn"] = ncfg
         c["firmware_history_fns"] = htot.get("hist_fns", 0)
+        c["firmware_history_calls_by_ma_contents"] = dict(zip(FLAVOURS, htot.get("hist_flavours", [])))
         c["firmware_history_hopping_calls"] = htot.get("hist_hopping", 0) + htot.get("hist_hopping_repeat", 0)
         c["firmware_history_nonhopping_calls"] = htot.get("hist_nonhopping", 0)
         c["firmware_history_serving_cell_calls"] = htot.get("hist_serving_cell", 0)
@@ -560,7 +574,8 @@ def run(ctx):
         py_full_expected = sum(len(fm[n]) for n in ns) * 63 * len(FULL_FNS)
         c["exhaustive"] = bool(c["firmware_evaluations"] == fw_expected
                                and c.get("python_reduced", 0) == py_red_expected
-                               and c.get("python_full", 0) == py_full_expected and hist_ok)
+                               and c.get("python_full", 0) == py_full_expected and hist_ok
+                               and all(v > 0 for v in tot.get("flavours", [0])) and all(v > 0 for v in htot.get("hist_flavours", [0])))
         c["bound"] = ("firmware: HSN 0..63 x N 1..64 x MAIO {0,1,N-1,63} x 86190 FN (T1 0..63 and T1 2047) + HSN 0 with MAIO 0..63; "
                       "history pass: %d FN (firmware) / %d FN (python) x all HSN x N x MAIO {0,1,N-1,63} x 2 MA contents with FN outermost; "
                       "python: reduced space complete, full space (HSN 1..63 x 86190 FN) for %s"
@@ -571,6 +586,8 @@ def run(ctx):
         ctx.sample({"hsn": 17, "maio": 1, "n": 37, "fn": 84863, "spec_mai": hopping.mai(17, 1, 37, 84863)})
         ctx.assumptions += [
             "x86-64 host build of rfch.c / gsm_utils.c (the code exercised uses fixed-width and int arithmetic well inside 16 bits)",
+            "firmware MA contents rotate through six sets of distinct 16-bit values incl. ARFCN_PCS/ARFCN_UPLINK flag bits and 0xffff/0x8000/0x7fff/0x0000; "
+            "the serving-cell ARFCN (0xbeef; 900..999 in the history pass) and the poison beyond N (0xdead) are in none of them",
             "MAIO >= N is evaluated with the same formula ((S + MAIO) mod N); the firmware stores MAIO in a uint8",
             "firmware FN set: T1 0..63 (every T1R) and T1 2047; other T1 differ only in bits of T1 above T1R, which the spec discards",
             "the two spec transcriptions (C in the driver, Python in vlib.ref.hopping) are tied together by comparing the firmware's real output with the Python one on the reduced space",
@@ -634,7 +651,8 @@ def replay(ctx, case):
                 ctx.violation("C07:firmware:crash", case, "driver died (rc=%d) in `%s`: %s" % (rc, " ".join(map(str, case["args"])), err))
             return
         hsn, maio, n, fn = case["hsn"], case["maio"], case["n"], case["fn"]
-        rc, out, err = cbuild.run(_exe, ["vec"], stdin=("%d %d %d %d\n" % (hsn, maio, n, fn)).encode())
+        fl = case.get("flavour", 0)
+        rc, out, err = cbuild.run(_exe, ["vec"], stdin=("%d %d %d %d %d\n" % (hsn, maio, n, fn, fl)).encode())
         f = None
         for line in out.decode().splitlines():
             if line.startswith("fw="):
@@ -643,9 +661,10 @@ def replay(ctx, case):
             ctx.violation("C07:firmware:crash", case, "driver died rc=%d: %s" % (rc, _san(err.decode())))
             return
         want = hopping.mai(hsn, maio, n, fn)
-        if int(f["fw"]) != ma_val(want) or int(f["spec"]) != want:
+        if int(f["fw"]) != int(f["want"]) or int(f["spec"]) != want or (fl == 0 and int(f["want"]) != ma_val(want)):
             ctx.violation(_fwkey(hsn, n), case,
-                          "rfch_get_params(hsn=%d maio=%d N=%d fn=%d) = channel %s (MA index %s); TS 45.002 6.2.3: MAI=%d (C transcription %s) -> channel %d"
-                          % (hsn, maio, n, fn, f["fw"], f["fwidx"], want, f["spec"], ma_val(want)))
+                          "rfch_get_params(hsn=%d maio=%d N=%d fn=%d, MA contents %s) = channel 0x%04x (MA index %s); "
+                          "TS 45.002 6.2.3: MAI=%d (C transcription %s) -> channel 0x%04x"
+                          % (hsn, maio, n, fn, FLAVOURS[fl], int(f["fw"]), f["fwidx"], want, f["spec"], int(f["want"])))
     finally:
         cbuild.cleanup(b)
